@@ -94,10 +94,12 @@ def public_attrs(msg):
     return [(k, v) for k, v in msg.__dict__.items() if not k.startswith("_")]
 
 
-def record_decode(rid, payload, labelmsm=1, via="ctor", fields=None, frame_validate=None):
+def record_decode(rid, payload, labelmsm=1, via="ctor", fields=None, frame=None, validate=1):
     """
-    Run the real decoder on `payload` and project the outcome.
-    via: "ctor" -> RTCMMessage(payload, labelmsm); "parse" -> RTCMReader.parse(frame)
+    Run the real decoder and project the outcome.
+    via: "ctor"   -> RTCMMessage(payload, labelmsm)
+         "parse"  -> RTCMReader.parse(frame, validate, labelmsm)   (frame = any buffer)
+         "reader" -> RTCMReader(BytesIO(frame_of(payload)), labelmsm=...).read()  (judged like ctor)
     Returns (record, message or None).
     """
     from pyrtcm import RTCMMessage, RTCMReader
@@ -116,16 +118,24 @@ def record_decode(rid, payload, labelmsm=1, via="ctor", fields=None, frame_valid
         "scaled": True,
         "scalebad": "",
         "lbl": True,
+        "via": "parse" if via == "parse" else "ctor",
+        "frame": list(frame) if via == "parse" else [],
+        "validate": int(validate),
     }
     msg = None
     try:
         if via == "ctor":
             msg = RTCMMessage(payload=bytes(payload), labelmsm=labelmsm)
+        elif via == "parse":
+            rec["p"] = []
+            msg = RTCMReader.parse(bytes(frame), validate=validate, labelmsm=labelmsm)
         else:
-            from pyrtcm.rtcmhelpers import crc2bytes, len2bytes  # noqa: F401
+            import io
 
-            frame = frame_of(payload)
-            msg = RTCMReader.parse(frame, validate=1 if frame_validate is None else frame_validate, labelmsm=labelmsm)
+            rdr = RTCMReader(io.BytesIO(frame_of(payload)), labelmsm=labelmsm, quitonerror=2)
+            _raw, msg = rdr.read()
+            if msg is None:
+                raise RuntimeError("reader returned no message")
     except BaseException as err:  # pylint: disable=broad-except
         if isinstance(err, (KeyboardInterrupt, SystemExit, MemoryError)):
             raise
@@ -200,14 +210,17 @@ def judge(records, tables_path, shards=16, heap="512m", timeout=3000):
     if not records:
         return {}, []
     # balance shards by payload size
-    order = sorted(records, key=lambda r: -len(r["p"]))
+    def size(r):
+        return max(len(r["p"]), len(r.get("frame") or []))
+
+    order = sorted(records, key=lambda r: -size(r))
     nsh = max(1, min(shards, len(records)))
     buckets = [[] for _ in range(nsh)]
     loads = [0] * nsh
     for r in order:
         i = loads.index(min(loads))
         buckets[i].append(r)
-        loads[i] += len(r["p"]) + 40
+        loads[i] += size(r) + 40
     jobs = []
     for i, b in enumerate(buckets):
         path = os.path.join(common.scratch(), f"recs-{os.getpid()}-{id(records) % 100000}-{i}.json")
